@@ -450,3 +450,69 @@ Proof.
   rewrite E1 in E2. injection E2 as _ _ Hr.
   apply app_eq_nil in Hr as [_ Hx']. contradiction.
 Qed.
+
+(* The walker always calls the code/flag primitive with nbits = descriptor.nbits
+   (elements, associated fields, skipped local descriptors): there the ghost's
+   second-look condition is implied by the column domain, i.e. it never refuses
+   on that ground. *)
+Lemma cf_recheck_auto w ae raws :
+  col_dom_any w ae raws = true -> cf_recheck_ok w (num_view w raws) = true.
+Proof.
+  intros Hdom. unfold cf_recheck_ok.
+  assert (Hw : (1 <= w <= 64)%Z).
+  { unfold col_dom_any, col_dom_num in Hdom. apply orb_prop in Hdom as [H|H];
+      repeat (apply andb_prop in H as [H ?]); lia. }
+  apply andb_true_intro. split; [lia|]. apply forallb_forall. intros [x|] Hx; [|reflexivity].
+  destruct (Z.ltb_spec 1 w) as [H1|H1]; [|reflexivity]. cbn [andb].
+  unfold num_view in Hx. assert (Hne : (w =? 1)%Z = false) by lia. rewrite Hne in Hx. cbn [andb] in Hx.
+  destruct (in_raw_view _ _ Hx) as (z & Hz & ->).
+  unfold col_dom_any in Hdom. rewrite Hne in Hdom. cbn [andb] in Hdom. rewrite orb_false_r in Hdom.
+  unfold col_dom_num in Hdom. repeat (apply andb_prop in Hdom as [Hdom ?]).
+  rewrite forallb_forall in H0. specialize (H0 _ Hz). cbn in H0.
+  assert (Hp : Z.of_N (2 ^ Z.to_N w) = (2 ^ w)%Z) by (apply pow_Z_N; lia).
+  assert (0 < 2 ^ w)%Z by (apply Z.pow_pos_nonneg; lia). lia.
+Qed.
+
+(* For numeric columns the flag consistency demanded by the column domain is
+   automatic: the all_equal flag computed by the encoder on the user's values
+   (next_column) is consistent with the scaled column (numeric_raws). *)
+Lemma optz_eqb_refl v : optz_eqb v v = true.
+Proof. destruct v; cbn; [apply Z.eqb_refl|reflexivity]. Qed.
+
+Lemma map_res_in {A B} (f : A -> result B) : forall l l' v,
+  map_res f l = Ok l' -> In v l -> exists y, f v = Ok y /\ In y l'.
+Proof.
+  induction l as [|x r IH]; intros l' v E Hin; [destruct Hin|].
+  cbn [map_res] in E. destruct (f x) as [y|] eqn:Ey; cbn [bind] in E; [|discriminate].
+  destruct (map_res f r) as [ys|] eqn:Er; cbn [bind] in E; [|discriminate].
+  injection E as <-. destruct Hin as [->|Hin]; [exists y; split; [exact Ey|left; reflexivity]|].
+  destruct (IH _ _ eq_refl Hin) as (y' & Hy & Hi). exists y'. split; [exact Hy|right; exact Hi].
+Qed.
+
+Lemma numeric_flag_ok sc rv col ae raws v0 c0 :
+  col = v0 :: c0 -> ae = forallb (value_eqb v0) col ->
+  numeric_raws sc rv col ae = Ok raws -> col_flag_ok ae raws = true.
+Proof.
+  intros -> Hae E. unfold numeric_raws in E. destruct ae.
+  - assert (Hc : exists c, raws = map (fun _ => c) (v0 :: c0)).
+    { destruct v0; try (destruct (scaled_int _ sc rv) as [x|]; cbn [bind] in E; [|discriminate]);
+        injection E as <-; eexists; reflexivity. }
+    destruct Hc as (c & ->). cbn [map col_flag_ok forallb]. rewrite optz_eqb_refl. cbn [andb].
+    apply forallb_forall. intros y Hy. apply in_map_iff in Hy as (_ & <- & _). apply optz_eqb_refl.
+  - destruct raws as [|r0 rs] eqn:Hraws.
+    { apply map_res_length in E. discriminate. }
+    cbn [col_flag_ok]. rewrite <- Hraws in *. apply existsb_exists.
+    destruct v0 as [z|m s|m e|b|].
+    5:{ (* v0 missing: some entry is not *)
+        assert (Hex : exists v, In v (VNone :: c0) /\ value_eqb VNone v = false).
+        { symmetry in Hae. clear E. generalize dependent (VNone :: c0). intros l.
+          induction l as [|x l IH]; cbn [forallb]; [discriminate|].
+          intros H. apply andb_false_iff in H as [H|H]; [exists x; split; [left; reflexivity|exact H]|].
+          destruct (IH H) as (v & Hv & He). exists v. split; [right; exact Hv|exact He]. }
+        destruct Hex as (v & Hv & Hne).
+        destruct (map_res_in _ _ _ _ E Hv) as (y & Hy & Hin). exists y. split; [exact Hin|].
+        destruct v; cbn in Hne; try discriminate;
+          (destruct (scaled_int _ sc rv); cbn [bind] in Hy; [|discriminate]; injection Hy as <-; reflexivity). }
+    all: destruct (map_res_in _ _ _ _ E (or_introl eq_refl)) as (y & Hy & Hin); exists y; (split; [exact Hin|]);
+      (destruct (scaled_int _ sc rv); cbn [bind] in Hy; [|discriminate]; injection Hy as <-; reflexivity).
+Qed.
